@@ -204,7 +204,17 @@ def r07_6(chk, P, E, rule='R07.6', only=None):
             others = [c for c in F.calls() if c not in cs and any(t in writers for t in P.call_targets(F, c))]
             if not others:
                 nonspanning.add(F.name)
-    chk.notes.append(f'{rule}: non-spanning fetchers (spanp constant 0, no other link-changing call): {sorted(nonspanning)}')
+    # ... which holds only while the handle is bound to a link: entered below STREAMSET such a function binds the handle to the
+    # link at the file position (current_link and what ov_info(vf,-1) answers both change).  Entry states from K5.
+    if nonspanning:
+        from rules import pagestate
+        ent = pagestate.entry_states(P)
+        for fn in sorted(nonspanning):
+            G = P.get(fn)
+            rs = ent.get(P.key(G)) if G is not None else None
+            if rs is None or rs[0] < 3:
+                nonspanning.discard(fn)
+    chk.notes.append(f'{rule}: non-spanning fetchers (spanp constant 0, no other link-changing call, entered at STREAMSET or above): {sorted(nonspanning)}')
     n = 0
     for F in P.functions():
         if not F.file.endswith('vorbisfile.c'):
